@@ -23,52 +23,52 @@ Proof. exact no_hash_no_comment. Qed.
 Print Assumptions C18_no_hash_no_comment.
 
 (* the decision table, for every byte string, every input_encoding and every codec oracle *)
-Theorem C18_comment_beats_input_encoding : forall dec_ignore b known name rest,
+Theorem C18_comment_beats_input_encoding : forall dec_ignore names_utf8 b known name rest,
   strip_prefix BOM b = None -> coding_match (dec_ignore b) = Some (name, rest) ->
-  decide dec_ignore (IBytes b) known = OBytes name b.
+  decide dec_ignore names_utf8 (IBytes b) known = OBytes name b.
 Proof. exact comment_beats_input_encoding. Qed.
 Print Assumptions C18_comment_beats_input_encoding.
 
-Theorem C18_input_encoding_then_utf8 : forall dec_ignore b known,
+Theorem C18_input_encoding_then_utf8 : forall dec_ignore names_utf8 b known,
   strip_prefix BOM b = None -> coding_match (dec_ignore b) = None ->
-  decide dec_ignore (IBytes b) known = OBytes (or_default known) b.
+  decide dec_ignore names_utf8 (IBytes b) known = OBytes (or_default known) b.
 Proof. exact input_encoding_then_utf8. Qed.
 Print Assumptions C18_input_encoding_then_utf8.
 
-Theorem C18_bom_is_utf8 : forall dec_ignore p known,
-  (coding_match (dec_ignore p) = None \/ exists rest, coding_match (dec_ignore p) = Some (utf8, rest)) ->
-  decide dec_ignore (IBytes (BOM ++ p)) known = OBytes utf8 p.
+Theorem C18_bom_is_utf8 : forall dec_ignore names_utf8 p known,
+  (coding_match (dec_ignore p) = None \/ exists name rest, coding_match (dec_ignore p) = Some (name, rest) /\ names_utf8 name = true) ->
+  decide dec_ignore names_utf8 (IBytes (BOM ++ p)) known = OBytes utf8 p.
 Proof. exact bom_is_utf8. Qed.
 Print Assumptions C18_bom_is_utf8.
 
-Theorem C18_bom_conflict_raises : forall dec_ignore dec p known name rest,
-  coding_match (dec_ignore p) = Some (name, rest) -> name <> utf8 ->
-  decode_raw_stream dec_ignore dec (IBytes (BOM ++ p)) known = RCompileError.
+Theorem C18_bom_conflict_raises : forall dec_ignore names_utf8 dec p known name rest,
+  coding_match (dec_ignore p) = Some (name, rest) -> names_utf8 name = false ->
+  decode_raw_stream dec_ignore names_utf8 dec (IBytes (BOM ++ p)) known = RCompileError.
 Proof. intros. unfold decode_raw_stream. erewrite bom_conflict_raises by eassumption. reflexivity. Qed.
 Print Assumptions C18_bom_conflict_raises.
 
-Theorem C18_undecodable_raises : forall dec_ignore dec text known e p,
-  decide dec_ignore text known = OBytes e p -> dec e p = None ->
-  decode_raw_stream dec_ignore dec text known = RCompileError.
+Theorem C18_undecodable_raises : forall dec_ignore names_utf8 dec text known e p,
+  decide dec_ignore names_utf8 text known = OBytes e p -> dec e p = None ->
+  decode_raw_stream dec_ignore names_utf8 dec text known = RCompileError.
 Proof. exact undecodable_raises. Qed.
 Print Assumptions C18_undecodable_raises.
 
-Theorem C18_decodable_gives_decoded_text : forall dec_ignore dec text known e p t,
-  decide dec_ignore text known = OBytes e p -> dec e p = Some t ->
-  decode_raw_stream dec_ignore dec text known = RText e t.
+Theorem C18_decodable_gives_decoded_text : forall dec_ignore names_utf8 dec text known e p t,
+  decide dec_ignore names_utf8 text known = OBytes e p -> dec e p = Some t ->
+  decode_raw_stream dec_ignore names_utf8 dec text known = RText e t.
 Proof. exact decodable_gives_decoded_text. Qed.
 Print Assumptions C18_decodable_gives_decoded_text.
 
-Theorem C18_str_is_returned_unchanged : forall dec_ignore t known, exists e, decide dec_ignore (IStr t) known = OStr e t.
+Theorem C18_str_is_returned_unchanged : forall dec_ignore names_utf8 t known, exists e, decide dec_ignore names_utf8 (IStr t) known = OStr e t.
 Proof. exact str_is_returned_unchanged. Qed.
 Print Assumptions C18_str_is_returned_unchanged.
 
 (* bytes compile to the same template as their decoded text (when the comment survives decoding,
    which holds for ASCII-compatible encodings: the codec oracle's assumption) *)
-Theorem C18_bytes_like_decoded_text_partial : forall dec_ignore dec b known name rest t,
+Theorem C18_bytes_like_decoded_text_partial : forall dec_ignore names_utf8 dec b known name rest t,
   strip_prefix BOM b = None -> coding_match (dec_ignore b) = Some (name, rest) -> dec name b = Some t ->
   coding_match t = Some (name, rest) ->
-  decode_raw_stream dec_ignore dec (IBytes b) known = decode_raw_stream dec_ignore dec (IStr t) known.
+  decode_raw_stream dec_ignore names_utf8 dec (IBytes b) known = decode_raw_stream dec_ignore names_utf8 dec (IStr t) known.
 Proof. exact bytes_like_decoded_text. Qed.
 Print Assumptions C18_bytes_like_decoded_text_partial.
 
@@ -95,5 +95,5 @@ Example C18_nonvacuous :
   coding_match (s2l "## coding=a coding:b x" ++ [LF] ++ s2l "t") = Some (s2l "b", s2l "t") /\
   coding_match (s2l "# coding:" ++ [LF] ++ s2l "latin-1 z" ++ [LF] ++ s2l "t") = Some (s2l "latin-1", s2l "t") /\
   coding_match (s2l "# coding: utf-8") = None /\
-  decide (fun b => b) (IBytes (BOM ++ s2l "# coding: latin-1" ++ [LF])) None = OBomConflict (s2l "latin-1").
+  decide (fun b => b) (str_eqb utf8) (IBytes (BOM ++ s2l "# coding: latin-1" ++ [LF])) None = OBomConflict (s2l "latin-1").
 Proof. vm_compute. repeat split. Qed.
